@@ -265,7 +265,6 @@ func H_lifecycle() {
 	verifAssert(err == nil && wt != nil, "NewWatcher succeeds when inotify_init1 does")
 	w := wt.b.(*inotify)
 	verifK.nIno = 3
-	verifScriptRead(verifParam("K"), 16)
 	nadd := verifChoose("adds", 3)
 	if nadd > 0 {
 		_ = wt.Add("/t")
@@ -273,6 +272,7 @@ func H_lifecycle() {
 	if nadd > 1 {
 		_ = wt.Add("/t/a")
 	}
+	verifScriptRead(verifParam("K"), 16) // records may name the watches just added
 	if verifBool("park") {
 		verifQuiesce() // let the reader decode and park (pending event / pending error)
 	}
@@ -297,6 +297,7 @@ func H_lifecycle() {
 	verifQuiesce()
 	verifAssert(verifGoroutines() == 0, "the background goroutine is gone after Close")
 	verifAssert(verifK.initCalls == 1 && verifK.newFiles == 1, "one descriptor acquired")
+	verifAssert(verifK.sysOpens == verifK.sysCloses, "no other descriptor left open")
 	verifAssert(verifK.initFlags&unix.IN_CLOEXEC != 0, "the notification descriptor is close-on-exec: otherwise child processes inherit it and the kernel instance outlives Close")
 	verifAssert(verifK.initFlags&unix.IN_NONBLOCK != 0, "the notification descriptor is non-blocking: otherwise Close cannot interrupt the reader's pending read")
 	verifCheckClosed(w)
@@ -322,6 +323,7 @@ func H_init_fail() {
 	verifAssert(wt == nil && err != nil && errors.Is(err, unix.EMFILE), "a failing inotify_init1 is reported")
 	verifAssert(verifGoroutines() == 0, "failed NewWatcher starts no goroutine")
 	verifAssert(verifK.newFiles == 0 && verifK.closeCalls == 0, "failed NewWatcher acquires nothing else")
+	verifAssert(verifK.sysOpens == verifK.sysCloses, "failed NewWatcher leaves no other descriptor open")
 	verifReach("init-fail")
 }
 
@@ -609,4 +611,31 @@ func H_readd_midbatch() {
 	verifAssert(ww != nil && ww.path == e.path, "the new watch stays in place")
 	verifAssert(w.Close() == nil, "Close")
 	verifReach("readd-midbatch")
+}
+
+// C14/C01: an unbuffered Watcher delivers events for the longest entry names.
+func H_longname_unbuffered() {
+	verifKReset()
+	w := verifNewInotifyN(0, verifChoose("evcap", 2), 0)
+	verifSetupTable(w, 1)
+	n := verifInt("n")
+	verifAssume(n == 16+256)
+	verifK.script[0] = verifRead{n: n}
+	verifK.nScript = 1
+	verifK.blockAfter = true
+	verifFillBuffer = func(i int, b []byte, n int) {
+		if i == 0 {
+			verifConstrainRecords(b, n, 1, 256, false)
+			verifAssume(verifRecs[0].mask == unix.IN_CREATE && uint32(verifRecs[0].wd) == verifTable[0].wd && verifRecs[0].ln == 256 && verifRecs[0].nl >= 240)
+		}
+	}
+	go w.readEvents()
+	select {
+	case ev := <-w.Events:
+		verifAssert(ev.Op == Create && len(ev.Name) == len("/t/")+verifRecs[0].nl, "a 240..255 byte entry name is delivered in full, also by an unbuffered Watcher")
+	case err := <-w.Errors:
+		verifAssert(err == nil, "reading the longest legal record must not fail")
+	}
+	verifAssert(w.Close() == nil, "Close")
+	verifReach("longname-unbuffered")
 }
